@@ -494,13 +494,14 @@ fn exec_inner(op: &str, a: &Value, st: &mut State) -> Value {
                 Ok(t) => t,
                 Err(e) => return json!({ "arg": e }),
             };
+            // a day that its own constructor refuses ends the call with that refusal (a client cannot go further)
             let sd = match mk_ruleday(getv(a, "sd")) {
                 Ok(t) => t,
-                Err(e) => return json!({ "arg": e }),
+                Err(e) => return e,
             };
             let ed = match mk_ruleday(getv(a, "ed")) {
                 Ok(t) => t,
-                Err(e) => return json!({ "arg": e }),
+                Err(e) => return e,
             };
             AlternateTime::new(std, dst, sd, geti(a, "st") as i32, ed, geti(a, "et") as i32).map(|_| ok(json!(1))).unwrap_or_else(err)
         }
